@@ -100,7 +100,8 @@ vf::Outcome run_case(const vf::Case& c, const vf::RunCtx& ctx) {
     std::vector<GroupT> all;
     all.push_back(make_elem<GroupT>(c.reals.data()));
     for (int i = 0; i + 1 < kMaxN; ++i) all.push_back(all.back().rplus(make_tan<GroupT>(c.reals.data() + R + i * D)));
-    const int mode = (int)c.ints[4];
+    int mode = (int)c.ints[4];
+    if (ctx.fuzz && mode == 0) mode = 2;   // single cells only under libFuzzer (short executions)
     if (mode == 0) {
       for (int N = 3; N <= kMaxN; ++N) for (int d = 2; d <= N; ++d) for (int kk = 1; kk <= 4; ++kk) for (int cl = 0; cl < 2; ++cl)
         check_cell(k, s, all, Cell{N, d, kk, cl != 0}, cells, nontriv);
